@@ -87,16 +87,32 @@ pub fn shrink_file(exe: &str, path: &str, v: &Violation, profile: &str, deadline
                 plan = c;
                 steps.push("history of earlier loads not needed".into());
             } else {
-                for i in (0..plan.prelude.len()).rev() {
-                    if plan.prelude.len() <= 1 {
+                // drop halves, quarters, ... then single elements
+                let before_len = plan.prelude.len();
+                let mut chunk = (plan.prelude.len() / 2).max(1);
+                while chunk >= 1 && left(deadline) {
+                    let mut i = 0;
+                    let mut any = false;
+                    while i < plan.prelude.len() && plan.prelude.len() > 1 && left(deadline) {
+                        let mut c = plan.clone();
+                        let end = (i + chunk).min(c.prelude.len());
+                        c.prelude.drain(i..end);
+                        if !c.prelude.is_empty() && same(exe, &c, &sig, &mut tries) {
+                            plan = c;
+                            any = true;
+                        } else {
+                            i += chunk;
+                        }
+                    }
+                    if chunk == 1 && !any {
                         break;
                     }
-                    let mut c = plan.clone();
-                    c.prelude.remove(i);
-                    if same(exe, &c, &sig, &mut tries) {
-                        plan = c;
-                        steps.push("history shortened".into());
+                    if !any {
+                        chunk /= 2;
                     }
+                }
+                if plan.prelude.len() < before_len {
+                    steps.push(format!("history shortened {} -> {} earlier runs", before_len, plan.prelude.len()));
                 }
                 // simplify the surviving history runs: reader sizes
                 for i in 0..plan.prelude.len() {
